@@ -389,7 +389,18 @@ def bounded_fragment(cx, contract, N=2, limit=6000):
     """-> (violations, tried, bound): the emitted text run natively on EVERY contract-conforming child behaviour over positions 0..N"""
     import itertools
     import random
-    if not hasattr(contract, 'ref') or cx.user_names or cx.user_sorts or any(isinstance(v, (str, bytes)) and v for _, v in cx.ex.lits):
+    import ast as _ast
+    has_yield = any(isinstance(n, (_ast.Yield, _ast.YieldFrom, _ast.FunctionDef, _ast.Lambda)) for n in _ast.walk(cx.tree))
+    for n in _ast.walk(cx.tree):
+        if isinstance(n, _ast.Call):
+            f = n.func
+            okc = (isinstance(f, _ast.Name) and (f.id.startswith('_CHILD_') or f.id == 'len')) or (isinstance(f, _ast.Attribute) and f.attr in ('append', 'pop'))
+            if not okc:
+                has_yield = True          # user callables / constructors / globals: the scripted world cannot answer them
+    if cx.cfg.get('globals'):
+        has_yield = True
+    if not hasattr(contract, 'ref') or has_yield or cx.user_names or cx.user_sorts or getattr(cx, 'ctor_names', None) \
+            or any(isinstance(v, (str, bytes, tuple)) and v for _, v in cx.ex.lits):
         return [], 0, 'not applicable to this unit (real leaves / user names)'
     ks = sorted(cx.kids)
     spaces = [list(_child_tables(cx.kids[k], N)) for k in ks]
